@@ -47,6 +47,13 @@ pub enum Op {
     /// wrap a seekable reader that already stands at this offset and ask for its position with
     /// seek(SeekFrom::Current(0)): a seek sets the bar to the offset it returns
     SeekCurrentZero(u8),
+    /// wrap_read(..).read_to_string(&mut s) of `.1` bytes into a String that already holds `.0` bytes:
+    /// as many incs as bytes were read
+    ReadToString(u8, u8),
+    /// wrap_iter over `items` items, drained to its end and polled `extra` more times; abandon() is called
+    /// from the loop body after item `abandon_at`. One inc per item; the end of the iterator finishes the
+    /// bar the stored way only when it is not finished yet
+    IterDrain { items: u8, abandon_at: Option<u8>, extra: u8 },
 }
 
 #[derive(Debug, Clone, Serialize, Deserialize)]
@@ -90,6 +97,8 @@ fn op_strategy() -> BoxedStrategy<Op> {
             Just(Op::ResetEta), Just(Op::ResetElapsed), Just(Op::SetMessage), Just(Op::SetPrefix), Just(Op::Println), Just(Op::Suspend),
             Just(Op::SetStyle), (0u8..12).prop_map(Op::SetTabWidth), Just(Op::ForceDraw), Just(Op::CloneAndDrop), any::<u8>().prop_map(Op::SeekCurrentZero)
         ],
+        1 => (0u8..20, 0u8..40).prop_map(|(a, b)| Op::ReadToString(a, b)),
+        2 => (0u8..6, proptest::option::weighted(0.4, 0u8..6), 0u8..3).prop_map(|(items, abandon_at, extra)| Op::IterDrain { items, abandon_at, extra }),
     ]
     .boxed()
 }
@@ -126,6 +135,7 @@ fn run_hist(c: &HistCase) -> CaseResult {
     let mut on_finish = 2u8; // default AndClear
     let mut v = Verdict::default();
     let mut crossed = false;
+    let mut finished = false;
     for (i, op) in c.ops.iter().enumerate() {
         clock::advance(Duration::from_millis(2));
         let before = pos;
@@ -166,6 +176,25 @@ fn run_hist(c: &HistCase) -> CaseResult {
                 let at = wrapped.seek(std::io::SeekFrom::Current(0)).expect("cursor seek");
                 assert_eq!(at, *k as u64);
             }
+            Op::ReadToString(have, n) => {
+                use std::io::Read;
+                let mut text = "x".repeat(*have as usize);
+                let got = pb.wrap_read(std::io::Cursor::new(vec![b'a'; *n as usize])).read_to_string(&mut text).expect("cursor read");
+                assert_eq!(got, *n as usize);
+            }
+            Op::IterDrain { items, abandon_at, extra } => {
+                let mut it = pb.wrap_iter(0..*items);
+                let mut j = 0u8;
+                while it.next().is_some() {
+                    if *abandon_at == Some(j) {
+                        pb.abandon();
+                    }
+                    j += 1;
+                }
+                for _ in 0..*extra {
+                    assert!(it.next().is_none());
+                }
+            }
         });
         if let Op::WithFinish(k) = op {
             pb = pb.with_finish(finish_of(*k));
@@ -179,6 +208,21 @@ fn run_hist(c: &HistCase) -> CaseResult {
             Op::Dec(d) => pos = pos.wrapping_sub(*d),
             Op::SetPos(p) | Op::UpdateSetPos(p) => pos = *p,
             Op::SeekCurrentZero(k) => pos = *k as u64,
+            Op::ReadToString(_, n) => pos = pos.wrapping_add(*n as u64),
+            Op::IterDrain { items, abandon_at, .. } => {
+                pos = pos.wrapping_add(*items as u64);
+                if matches!(abandon_at, Some(j) if j < items) {
+                    finished = true;
+                }
+                if !finished {
+                    finished = true;
+                    if on_finish <= 2 {
+                        if let Some(l) = len {
+                            pos = l
+                        }
+                    }
+                }
+            }
             Op::Reset => pos = 0,
             Op::Finish | Op::FinishWithMessage | Op::FinishAndClear => {
                 if let Some(l) = len {
@@ -199,6 +243,11 @@ fn run_hist(c: &HistCase) -> CaseResult {
             Op::DecLen(d) => len = len.map(|l| l.saturating_sub(*d)),
             Op::UnsetLen => len = None,
         }
+        match op {
+            Op::Finish | Op::FinishWithMessage | Op::FinishAndClear | Op::FinishUsingStyle | Op::Abandon | Op::AbandonWithMessage => finished = true,
+            Op::Reset => finished = false,
+            _ => {}
+        }
         if let Op::Inc(d) = op {
             if before.checked_add(*d).is_none() {
                 crossed = true;
@@ -211,11 +260,12 @@ fn run_hist(c: &HistCase) -> CaseResult {
         }
         let (gp, gl) = catch(|| (pb.position(), pb.length())).map_err(|p| Fail::new("panic", format!("getter panicked after op #{i} {op:?}: {p}")))?;
         let kind = match op {
-            Op::Finish | Op::FinishWithMessage | Op::FinishAndClear | Op::FinishUsingStyle | Op::Abandon | Op::AbandonWithMessage => "position_finish",
+            Op::Finish | Op::FinishWithMessage | Op::FinishAndClear | Op::FinishUsingStyle | Op::Abandon | Op::AbandonWithMessage | Op::IterDrain { .. } => "position_finish",
             _ => "position",
         };
         ensure!(gp == pos, kind, "after op #{i} {op:?}: position() = {gp}, history defines {pos} (ops {:?})", &c.ops[..=i]);
         ensure!(gl == len, "length", "after op #{i} {op:?}: length() = {gl:?}, history defines {len:?}");
+        ensure!(pb.is_finished() == finished, "harness", "after op #{i} {op:?}: is_finished() = {}, the model says {finished}", pb.is_finished());
         // fraction as seen by a draw (forced, so that the key is evaluated now unless the bar is cleared)
         let before_writes = nwrites.load(Ordering::SeqCst);
         catch(|| pb.force_draw()).map_err(|p| Fail::new("panic", format!("draw panicked after op #{i} {op:?} (pos {pos}, len {len:?}): {p}")))?;
@@ -261,6 +311,8 @@ fn run_hist(c: &HistCase) -> CaseResult {
     v.label_if(c.ops.iter().any(|o| matches!(o, Op::IncLen(_) | Op::DecLen(_))), "len_saturating");
     v.label_if(c.hidden, "hidden_target");
     v.label_if(c.ops.iter().any(|o| matches!(o, Op::ResetEta | Op::ResetElapsed)), "unrelated_calls_interleaved");
+    v.label_if(c.ops.iter().any(|o| matches!(o, Op::ReadToString(h, n) if *h > 0 && *n > 0)), "read_to_string_appending");
+    v.label_if(c.ops.iter().any(|o| matches!(o, Op::IterDrain { .. })), "iterator_adaptor_drained");
     Ok(v)
 }
 
@@ -423,7 +475,7 @@ fn decode_hist(u: &mut FuzzInput) -> HistCase {
     let hidden = u.n(4) == 0;
     let mut ops = vec![];
     while !u.empty() && ops.len() < 60 {
-        ops.push(match u.n(31) {
+        ops.push(match u.n(33) {
             0..=4 => Op::Inc(u.special_u64()),
             5 | 6 => Op::Dec(u.special_u64()),
             7 | 8 => Op::SetPos(u.special_u64()),
@@ -449,6 +501,8 @@ fn decode_hist(u: &mut FuzzInput) -> HistCase {
             29 => Op::SetTabWidth(u.n(12) as u8),
             30 => Op::ForceDraw,
             31 if u.bool() => Op::SeekCurrentZero(u.u8()),
+            32 if u.bool() => Op::ReadToString(u.n(19) as u8, u.n(39) as u8),
+            33 => Op::IterDrain { items: u.n(5) as u8, abandon_at: if u.bool() { Some(u.n(5) as u8) } else { None }, extra: u.n(2) as u8 },
             _ => Op::CloneAndDrop,
         });
     }
@@ -467,12 +521,12 @@ pub fn property() -> Property {
         parts: vec![
             Box::new(Gen::<HistCase> {
                 name: "history",
-                rule: "0-30 (thorough 60) ops from inc/dec/set_position/update/reset/finish*/abandon*/finish_using_style/set_length/inc_length/dec_length/unset_length with arguments from {0,1,2,2^24,2^32+-1,2^63+-1,u64::MAX-1,u64::MAX,random}, rendered with pos/len/percent/bar/bytes/eta/per_sec keys; after every op position()/length() vs wrapping/saturating model, fraction in [0,1] (1 for len 0, 0 for unknown) read through a custom key; non-trivial = the history wraps past 0 or u64::MAX",
+                rule: "0-30 (thorough 60) ops from inc/dec/set_position/update/reset/finish*/abandon*/finish_using_style/set_length/inc_length/dec_length/unset_length, the reader adaptor (seek(Current(0)), read_to_string into a non-empty String) and the iterator adaptor (drained, abandoned from the loop body, polled again after its end) with arguments from {0,1,2,2^24,2^32+-1,2^63+-1,u64::MAX-1,u64::MAX,random}, rendered with pos/len/percent/bar/bytes/eta/per_sec keys; after every op position()/length() vs wrapping/saturating model, fraction in [0,1] (1 for len 0, 0 for unknown) read through a custom key; non-trivial = the history wraps past 0 or u64::MAX",
                 strategy: hist_strategy,
                 cases: |t| t.pick(6_000, 300_000),
                 run: run_hist,
                 signature: no_signature,
-                essential: &["wrapped_u64_boundary", "reset", "finish", "len_saturating", "hidden_target", "unrelated_calls_interleaved"],
+                essential: &["wrapped_u64_boundary", "reset", "finish", "len_saturating", "hidden_target", "unrelated_calls_interleaved", "read_to_string_appending", "iterator_adaptor_drained"],
                 workers: w,
                 decode: Some(decode_hist),
             }),
